@@ -303,7 +303,7 @@ contract(V3 + ".data_received",
 # ---- the LAN object: C07 session discipline, C08 retry/recovery, C09 containment ---------------------------------------------
 LANC = LAN + "LAN"
 
-fields(LANC, _ip="str", _port="int", _device_id="int[0,18446744073709551615]", _token="opt:bytes", _key="opt:bytes[32]",
+fields(LANC, _ip="str", _port="int[0,65535]", _device_id="int[0,18446744073709551615]", _token="opt:bytes", _key="opt:bytes[32]",
        _protocol_version="int", _protocol="union:none|obj:" + LAN + "_LanProtocol|obj:" + V3,
        _connection_expiration="opt:ext:datetime", _max_connection_lifetime="opt:ext:timedelta")
 
